@@ -147,6 +147,31 @@ def run_k(res, order, tier):
             cid = l.split()[1]
             bad.setdefault(cid, []).append(l)
         by_id = {c["id"]: c for c in cases}
+        # ---- process-history independence: the same cases run in ONE process in the reverse order (large classes before small ones, so
+        #      every engine is constructed after different predecessors) must give the same bits: no result may depend on which engines were
+        #      constructed, or which pairs were computed, before
+        cf2 = os.path.join(tmp, "cases_rev.txt"); of2 = os.path.join(tmp, "out_rev.txt")
+        gen.write_cases(cf2, list(reversed(cases)))
+        rc, out2 = sh([exe, cf2, of2], timeout=3600, check=False)
+        if rc != 0:
+            raise RuntimeError("drv_deriv (reverse order) failed rc=%d\n%s" % (rc, out2[-3000:]))
+        def per_case(path):
+            d = {}; cur = None
+            for l in open(path):
+                if l.startswith("case "):
+                    cur = l.split()[1]; d[cur] = []
+                elif cur is not None:
+                    d[cur].append(l)
+            return d
+        fwd, rev = per_case(of), per_case(of2)
+        nhist = 0
+        for cid in fwd:
+            nhist += 1
+            if cid in rev and fwd[cid] != rev[cid] and cid not in bad:
+                k = next((i for i, (x, y) in enumerate(zip(fwd[cid], rev[cid])) if x != y), 0)
+                bad[cid] = ["MISMATCH %s the result depends on what the process computed before: line %d differs between the forward and the reverse run of the same case list: %s | %s" % (
+                    cid, k, fwd[cid][k].strip()[:160], rev[cid][k].strip()[:160])]
+        res.cov["cases_compared_bitwise_between_two_process_histories"] = nhist
         return [(by_id[cid], lines) for cid, lines in bad.items()]
     finally:
         shutil.rmtree(tmp, ignore_errors=True)
